@@ -189,6 +189,9 @@ def path_indep(ctx, job, box):
     same_grid = grid_same_except(L, a, b, pc, pl, set())
     rest = fields_same(L, a, b, except_=('buffer',))
     ok = bool_and(bool_and(same_geom, same_grid), rest)
+    # the relation must hold again afterwards for the induction over histories: what the two runs keep in
+    # storage beyond the screen (shown by a later growth) must be the same as well
+    ok = bool_and(ok, hidden_same(L, a, b, pc, pl))
     if op == 'display':
         d1, d2 = run.displays[-1], disp2[-1]
         ok = bool_and(ok, same(d1, d2))
